@@ -242,7 +242,36 @@ def install(I):
             return VBytes(z3.Empty(smt.Bytes))
         if len(a) == 1 and isinstance(a[0], VBytes):
             return a[0]          # bytes(b) of a bytes value is an equal bytes value
+        if len(a) == 1 and isinstance(a[0], VRef) and isinstance(ex.heap[a[0].addr], HBuf):
+            return VBytes(ex.heap[a[0].addr].seq)
+        if len(a) == 1 and isinstance(a[0], VView):
+            return VBytes(I.view_bytes(a[0]))
         raise Undecided('bytes(x)')
+
+    @reg('bytearray')
+    def _bytearray(ex, a, k):
+        if not a:
+            return ex.alloc(HBuf(z3.Empty(smt.Bytes)))
+        v = a[0]
+        if isinstance(v, VBytes):
+            return ex.alloc(HBuf(v.e))
+        if isinstance(v, (VInt, VBool)):
+            n = I.as_int(v, None, 'bytearray size')
+            if not ex.branch(n >= 0, 'bytearray:size>=0'):
+                raise PyRaise(I.mkexc('ValueError', 'negative count'))
+            z = ex.fresh('zeros', smt.Bytes)         # n zero bytes: only the length matters to the callers modelled
+            ex.assume(z3.Length(z) == n)
+            return ex.alloc(HBuf(z))
+        raise Undecided(f'bytearray({v!r})')
+
+    @reg('memoryview')
+    def _memoryview(ex, a, k):
+        v = a[0]
+        if isinstance(v, VRef) and isinstance(ex.heap[v.addr], HBuf):
+            return VView(v.addr, z3.IntVal(0), z3.Length(ex.heap[v.addr].seq))
+        if isinstance(v, VView):
+            return v
+        raise Undecided(f'memoryview({v!r})')
 
     @reg('str')
     def _str(ex, a, k):
